@@ -403,7 +403,34 @@ fn reset_hooks() {
     selen::verif_hooks::set_fast_path_disabled(true);
 }
 
+/// solvef with a watchdog (as propf / searchf): every case carries a time limit (`to N`, default 3000 ms) that the solver
+/// has to honour by itself — also inside search::propagate and while the engine descends (C15, family
+/// creeping_propagation).  The case runs in a helper thread (Model is not Send: it is built there) and is reported as HANG
+/// when no answer has arrived 8 s after its own time limit; the abandoned thread spins until the process exits.
 pub fn run_solvef(line: &str) -> String {
+    let mut limit_ms: u64 = 3000;
+    for p in line.split(';') {
+        let t: Vec<&str> = p.split_whitespace().collect();
+        if t.len() == 2 && t[0] == "to" { limit_ms = t[1].parse().unwrap_or(3000); }
+    }
+    let (tx, rx) = std::sync::mpsc::channel();
+    let l = line.to_string();
+    std::thread::spawn(move || {
+        // a panic is handed over with its message and raised again in the calling thread (main prints `PANIC <message>`)
+        let r = std::panic::catch_unwind(|| run_solvef_inner(&l)).map_err(|e| {
+            if let Some(s) = e.downcast_ref::<&str>() { s.to_string() }
+            else if let Some(s) = e.downcast_ref::<String>() { s.clone() }
+            else { "?".to_string() }
+        });
+        let _ = tx.send(r);
+    });
+    match rx.recv_timeout(std::time::Duration::from_millis(limit_ms + 8000)) {
+        Ok(Ok(r)) => r,
+        Ok(Err(msg)) => panic!("{}", msg),
+        Err(_) => "HANG".to_string(),
+    }
+}
+fn run_solvef_inner(line: &str) -> String {
     cap_memory();
     let b = mbuild(line);
     let e0 = b.entry.first().map(|s| s.as_str()).unwrap_or("solve");
